@@ -1,3 +1,4 @@
 import Audit.Tool
 import Uds.Props.C05
+import Uds.Props.C05Hist
 #audit Uds.Props.C05
